@@ -309,6 +309,16 @@ def judge_exchange(case, obs, responses, prop="C03"):
             if r.get("refused"):
                 fail_spec("refused", where)
                 continue
+            if r.get("no_response"):
+                # no answer although the request was read: first what the call log says (C10), else the missing
+                # response itself ("the client receives exactly one response")
+                if not m["calls_ok"]:
+                    fail_spec("calls" if prop == "C10" else "no_response",
+                              dict(where, calls={"model": m["model_calls"], "impl": [[x[0], x[1]] for x in groups[ri]]},
+                                   evidence=r.get("evidence")))
+                else:
+                    fail_spec("no_response", dict(where, evidence=r.get("evidence")))
+                continue
             if m["outcome"]["kind"] == "handled":
                 n_handled += 1
             if m["logs_exception"]:
@@ -784,6 +794,16 @@ def gen_c10_http(rng, tier, mult=1):
         if i % 5 == 0:
             phases.append([gen_request(rng, target=rng.choice(uris), client=cl())])
         yield exchange_case(hs, phases, bind=bind, factory=(i % 11 == 0), meta={"kind": f"c10-http/{k}-handlers"})
+    # the first accepting handler answers with a bare status (no headers, no body), later handlers accept the same URI:
+    # the request is the first handler's and nobody else's
+    for status in (404, 403, 400, 500, 204, 304):
+        for hdrs in (None, []):
+            for pre in (0, 1):
+                first = {"accept": "yes", "result": {"kind": "ret", "status": status, "headers": hdrs, "body": None}}
+                hs = [{"accept": "no", "result": dict(SMALL_RESULT)}] * pre + [first] + [
+                    {"accept": "yes", "result": dict(SMALL_RESULT)}, {"accept": {"in": ["/a"]}, "result": dict(SMALL_RESULT)}]
+                yield exchange_case(hs, [[gen_request(rng, target="/a")], [gen_request(rng, target="/a?x=1")]],
+                                    meta={"kind": "c10-http/bare-status-first"})
 
 
 # --------------------------------------------------------------------------- C20 (HTTP half)
